@@ -47,3 +47,32 @@ Theorem C06_no_transition_mp11 : forall cf mc children ev info res rn g,
      then bump g (nt_items ev (act rn) (act rn)) else g).
 Proof. exact mp11_nt_phase. Qed.
 Print Assumptions C06_no_transition_mp11.
+
+(* ---- on the specification function (Spec.v), which the engines are proved to be on the core fragment
+        (Properties_C01: C01_back_run_is_the_specified_selection, C01_mp11_run_is_the_specified_selection) ---- *)
+From Msm Require Import Spec Lemmas_Core Lemmas_SpecProps.
+
+(* no_transition: exactly when no row was taken and no guard rejected at any level, once per region, after the step *)
+Theorem C06_spec_no_transition_iff_nothing_matched : forall pol mc ev val c,
+  let o := sp_level pol mc ev val c in
+  o_taken o = false -> o_rejected o = false ->
+  sp_process pol mc ev val c =
+    Out false false (rev (map (fun s => Cb KNoTrans [] s ev false (c_act (o_conf o))) (c_act (o_conf o))) ++ o_items o) (o_conf o).
+Proof. exact sp_process_no_transition. Qed.
+Print Assumptions C06_spec_no_transition_iff_nothing_matched.
+
+Theorem C06_spec_no_report_when_taken_or_rejected : forall pol mc ev val c,
+  let o := sp_level pol mc ev val c in
+  o_taken o = true \/ o_rejected o = true -> sp_process pol mc ev val c = o.
+Proof. exact sp_process_handled. Qed.
+Print Assumptions C06_spec_no_report_when_taken_or_rejected.
+
+(* the machine's own internal table is tried only if no region took a transition *)
+Theorem C06_spec_level : forall pol mc ev val c,
+  sp_level pol mc ev val c =
+    let o := sp_regions pol mc (sp_level_subs pol mc) ev val c in
+    if o_taken o then o
+    else (let o2 := sp_rows pol mc 0 ev val (rev (filter (sp_matches (e_ty ev)) (m_irows mc))) (o_conf o) in
+          Out (o_taken o2) (o_rejected o || o_rejected o2) (o_items o2 ++ o_items o) (o_conf o2)).
+Proof. exact sp_level_unfold. Qed.
+Print Assumptions C06_spec_level.
